@@ -24,6 +24,14 @@ FINISH = dict(
 
 
 def main(run):
+    from checks.common import anchored
+    out = FINISH
+    with anchored(run, 'C18/T'):
+        out = _main(run)
+    return out
+
+
+def _main(run):
     t0 = time.time()
     ch = env.setup()
     import chython.periodictable as pt
